@@ -37,7 +37,7 @@ class Byte(Expression):
         return hex(self.value)
 
     def _compile(self, out, flags):
-        LEN = Code('len')
+        LEN = Code('_len')
         has_byte = POS < LEN(TEXT)
         is_match = TEXT[POS] == self.value
 
